@@ -58,13 +58,18 @@ def walkRoot (pre : Str) : Str :=
 
 def partsPattern (expr : Str) : Str := expr ++ "/part*".toList
 
+/-- the resolved name of a walked path: without the `./` the walk of an anchored expression added (`path[2:]`), so that a
+file is named as the expression names it -/
+def unanchor (expr : Str) (f : Str) : Str :=
+  if (literalPrefix expr).contains '/' then f else f.drop 2
+
 /-- `Local.resolve_filenames(expr)`; `isFile` is `os.path.isfile` -/
 def localResolve (W : List Str) (isFile : Str → Bool) (expr0 : Str) : List Str :=
   let expr := stripScheme expr0
   if isFile expr then [expr]
   else
     let (e, pre) := anchored expr
-    (walk W (walkRoot pre)).filter fun f => globMatch e f || globMatch (partsPattern e) f
+    ((walk W (walkRoot pre)).filter fun f => globMatch e f || globMatch (partsPattern e) f).map (unanchor expr)
 
 def isSpace (c : Char) : Bool := c == ' ' || c == '\t' || c == '\n' || c == '\r' || c == '\x0b' || c == '\x0c'
 def strip (s : Str) : Str := ((s.dropWhile isSpace).reverse.dropWhile isSpace).reverse
